@@ -8,7 +8,7 @@ an empty trailing component, at the middle segment and at SE; thorough adds the 
 which validation completes.  Every document is reduced to a delimiter-free matrix [segment id, [[component, ...], ...]]
 and re-encoded with every admissible (segment terminator, element separator, component separator,
 line break) of
-      {~, LF, !, FS} x {*, |, +} x {:, >, backslash} x {none, LF, CRLF, CR}
+      {~, LF, !, FS, {} x {*, |, +, GS} x {:, >, backslash, %} x {none, LF, CRLF, CR}
 admissible = the three delimiters do not occur in the data of that document, the line break shares no
 character with them, and the component separator belongs to the declared character set (tables of the
 C13 reference).  quick: the base encoding, every single-factor change and a greedy covering array of
@@ -30,9 +30,9 @@ from mc import core, corpus, ref
 ID = 'C12'
 LEVEL = 'model_checking'
 
-SEGS = ('~', '\n', '!', '\x1c')
+SEGS = ('~', '\n', '!', '\x1c', '{')
 ELES = ('*', '|', '+', '\x1d')       # incl. a control-character separator (the FS/GS/RS/US family real files use)
-SUBS = (':', '>', '\\')
+SUBS = (':', '>', '\\', '%')          # % and { are format / template characters of the implementation language
 EOLS = ('', '\n', '\r\n', '\r')
 BASE = ('~', '*', ':', '')
 FACTOR = ('seg', 'ele', 'sub', 'eol')
@@ -388,7 +388,7 @@ def run(R):
                              '%d structural operators (%s) at %s of the minimal document'
                              % (len(corpus.one_entry_per_map()), len(MUT_OPS + OWN_OPS), ', '.join(MUT_OPS + OWN_OPS),
                                 '3 positions (first body segment, middle, SE)' if R.thorough else '2 positions (middle, SE)'),
-                'encodings': '{~,LF,!,FS} x {*,|,+,GS(0x1d)} x {:,>,backslash} x {none,LF,CRLF,CR}, delimiters absent from the data, line break disjoint '
+                'encodings': '{~,LF,!,FS,{} x {*,|,+,GS(0x1d)} x {:,>,backslash,percent} x {none,LF,CRLF,CR}, delimiters absent from the data, line break disjoint '
                              'from the delimiters, component separator in the declared character set: %d for charset E; ' % len(full)
                              + ('all of them' if R.thorough else 'base + every single-factor change + greedy pairwise covering array (%d)' % len(quick_encodings((SEGS, ELES, SUBS)))),
                 'charset': "E for every document; B (component separator ':' only) for every minimal document and all documents of %s" % ', '.join(CHARSET_B_MAPS)}
